@@ -32,7 +32,7 @@ PLAN = {
         'level': 'proof',
         'units': ['rank', 'fixed_session', 'phon', 'pmeth'],
         'technique': 'Verus postcondition sg_ok (len>=1, selection<len, auxiliary==composition) on every event function; read-out preconditions',
-        'claim': 'Proof that every key/backspace event of both methods returns a suggestion with >=1 candidate, selection < length (given a selection valid for the list shown before) and auxiliary text equal to the composition, and that every index below the length is readable (read-out functions verified with exactly those preconditions).',
+        'claim': 'Proof that every key/backspace event of both methods returns a suggestion with >=1 candidate, selection < length (given a selection valid for the list shown before) and auxiliary text equal to the composition, that every terminating event (commit, finish, emptying backspace) leaves an empty composition -- so "the composition" is the keys since the last terminating event, nothing older -- and that every index below the length is readable (read-out functions verified with exactly those preconditions).',
         'note': COMMON_TRUST + 'std list-length specs (sort, dedup, truncate) assumed.',
     },
     'C03': {
@@ -148,7 +148,7 @@ PLAN = {
         'note': COMMON_TRUST + 'Statements about poriborton output (no Bengali-block code point, totality on the dictionary) are not decided.',
     },
     'C17': {
-        'bounded': ['smart_quote'],
+        'bounded': ['smart_quote', 'split'],
         'level': 'proof',
         'units': ['util', 'fixed_session', 'phon'],
         'technique': 'Verus: smart_quoter == pointwise curl maps with loop invariants; placement clause (applied once, after splitting, only with the option on) in both list functions',
